@@ -1,7 +1,7 @@
 SPECIFICATION Spec
 CONSTANTS
   MaxParams = 4
-  Shapes = {1,2}
+  Shapes = {2}
   Rich = FALSE
   SecondStep = FALSE
 INVARIANT InputScoped
